@@ -10,6 +10,7 @@ import Jence.Spec.Oracle
 import Jence.Lemmas.History
 import Jence.Lemmas.NVal
 import Jence.Lemmas.EvalMirror
+import Jence.Model.Uci
 open Jence
 
 def parseHex? (s : String) : Option UInt64 :=
@@ -192,6 +193,16 @@ def cmdMirror (rest : String) : List String :=
   | none => ["!none"]
   | some g => [dumpGame (mirror g)]
 
+/-- `session <line> | <line> | …`: the command loop of `Model/Uci` on these input lines (nothing arrives while a search
+    runs), from the state `main` starts with; prints what the engine prints, then the final status -/
+def cmdSession (rest : String) : List String :=
+  let lines := (rest.splitOn " | ").map fun l => l.trimAscii.toString
+  match parseFen startFen with
+  | .ok g0 =>
+    let s := Session.run (fun _ => {}) (4 * lines.length + 16) (Session.init g0) lines
+    s.out.toList ++ [s!"status running={if s.running then 1 else 0} panicked={if s.panicked then 1 else 0} unmodelled={if s.unmodelled then 1 else 0} searches={s.searches}"]
+  | _ => ["!panic"]
+
 def cmdFen (rest : String) : List String :=
   match parseFen rest with
   | .none => ["!none"] | .panic => ["!panic"] | .ok g => [dumpGame g]
@@ -321,6 +332,7 @@ def handle (line : String) (tt : TT) : List String × TT :=
   | "budget" => (cmdBudget rest, tt)
   | "perft" => (cmdPerft rest, tt)
   | "search" => cmdSearch rest tt
+  | "session" => (cmdSession rest, tt)
   | "oracle" =>
     (match words rest with
      | "attackall" :: s :: r => cmdAttackAll ((parseNat? s).getD 1).toUInt64 ((r.head?.bind parseNat?).getD 1) true
